@@ -73,7 +73,7 @@ def compare(got, want, unordered):
 class C11(Check):
     ID = 'C11'
     LEVEL = 'exploration'
-    BUDGET = {'quick': 30, 'thorough': 300}
+    BUDGET = {'quick': 30, 'thorough': 240}
     RULE = ('case = (program from the typed generator: up to 5 top-level operators, nesting depth <= 3 of group_by / roll / split / time_split / tee_map '
             'around stateless, stateful, reducing and batching operators; input of 0..30 ints; mode multiplexed, or plain for programs made of '
             'dual-mode operators without take/first). The source is a Subject; every output is stamped with the index of the item being pushed. '
@@ -88,7 +88,7 @@ class C11(Check):
     REQUIRED_OBSERVED = ['outputs_positioned', 'outputs_before_completion', 'outputs_at_completion']
 
     def generate(self, rng, tier, shard, nshards):
-        n = 20000 if tier == 'quick' else 60000
+        n = 20000 if tier == 'quick' else 10 ** 7
         for k in range(n):
             plain = (k % 5 == 0)
             if plain:
